@@ -96,6 +96,10 @@ TARGETS = [
     dict(fn='osmium::object_equal_type_id::operator()', sig='(const osmium::OSMObject &, const osmium::OSMObject &)'),
     dict(fn='osmium::operator==', sig='(const osmium::OSMObject &, const osmium::OSMObject &)'),
     dict(fn='osmium::operator<', sig='(const osmium::OSMObject &, const osmium::OSMObject &)'),
+    dict(fn='osmium::operator>', sig='(const osmium::OSMObject &, const osmium::OSMObject &)'),
+    dict(fn='osmium::operator<=', sig='(const osmium::OSMObject &, const osmium::OSMObject &)'),
+    dict(fn='osmium::operator>=', sig='(const osmium::OSMObject &, const osmium::OSMObject &)'),
+    dict(fn='osmium::operator!=', sig='(const osmium::OSMObject &, const osmium::OSMObject &)'),
     dict(fn='osmium::object_order_type_id_version_without_timestamp::operator()', sig='(const osmium::OSMObject &, const osmium::OSMObject &)'),
     dict(fn='osmium::object_order_type_id_reverse_version::operator()', sig='(const osmium::OSMObject &, const osmium::OSMObject &)'),
     dict(fn='osmium::Location::valid'),
@@ -216,6 +220,12 @@ TARGETS = [
     # opl_parse_tags drives a TagListBuilder (outside the subset): the test that ends its loop is translated
     dict(fn='osmium::io::detail::opl_parse_tags', cond=0, name='opl_parse_tags_cond_end'),
     dict(fn='osmium::io::detail::opl_parse_timestamp', cond=0, name='opl_parse_timestamp_cond_empty'),
+    # C13: string_to_ulong / string_to_object_id call strtoul / strtoll / isspace / errno (external: refused as a whole, and so is
+    # any conjunct that reads errno or `char* end`): the conjuncts in front of the last one of their conditions are translated, so
+    # that a NEW conjunct in the acceptance test (seed C13-8: `errno != ERANGE &&`) changes — or is refused in — the generated text
+    dict(fn='osmium::detail::string_to_ulong', cond=1, and_left=1, name='string_to_ulong_cond_start'),
+    dict(fn='osmium::detail::string_to_ulong', cond=2, and_left=1, name='string_to_ulong_cond_range'),
+    dict(fn='osmium::string_to_object_id', sig='(const char *)', cond=0, and_left=1, name='string_to_object_id_cond_start'),
 ]
 
 
